@@ -602,6 +602,9 @@ func (a *nilAnalysis) transfer(st nstate, in ssa.Instruction) nstate {
 				// the stored value's nilness becomes the field's
 				if v := a.evalNil(x.Val, d); v != -1 {
 					n[path] = v
+				} else if isPointerLike(x.Val.Type()) && a.possiblyNil(x.Val, map[ssa.Value]bool{}) == "" {
+					// a value from a source that is never nil (a field the parser always sets, a fresh node)
+					n[path] = 1
 				}
 				out = append(out, n)
 			}
